@@ -275,6 +275,12 @@ def apply_state(b, spec):
     for e in spec["adds"]:
         c = comps[e["c"] % len(comps)]
         c.setNumberDensity(e["nuc"], e["v"])
+    # child order: reactors.factory sorts every block; components taken out and put back (as block converters do) end
+    # up at the end of the child list, so the children are no longer in sorted order
+    for k in spec.get("reorder", []):
+        c = list(b)[k % len(b)]
+        b.remove(c)
+        b.add(c)
     b.p.percentBu = spec["bu"]
     b.p.massHmBOL = b.getHMMass() * spec["hm"]
     b.p.flux = spec["flux"]
@@ -537,6 +543,7 @@ def _block_strategy(with_xs=False):
         "flux": st.one_of(st.sampled_from([1.0, 1e14]), st.floats(1e8, 1e16)),
         "fluxZero": st.booleans(),
         "gas": st.sampled_from([0.0, 0.25, 1.0]),
+        "reorder": st.one_of(st.just([]), st.lists(st.integers(0, 7), min_size=1, max_size=3)),
     }
     if with_xs:
         d["xs"] = st.sampled_from(["A", "A", "B", "Z", "a", "c", "z"])
@@ -676,10 +683,10 @@ def check_average(out, ex, rep, coll, kind, byComp, prefix="avg"):
 def check_template(out, cand, rep, prefix):
     """The representative is a re-filled copy of an eligible member: same type, components and component volumes."""
     words = set(rep.getType().split())
-    names = [c.getName() for c in rep]
-    vols = [float(c.getVolume()) for c in rep]
-    ok = any(m["words"] == words and [c["name"] for c in m["comps"]] == names
-             and all(_close(a, c["rawvol"], 1e-9) for a, c in zip(vols, m["comps"])) for m in cand)
+    names = sorted(c.getName() for c in rep)
+    vols = {c.getName(): float(c.getVolume()) for c in rep}
+    ok = any(m["words"] == words and sorted(c["name"] for c in m["comps"]) == names
+             and all(_close(vols[c["name"]], c["rawvol"], 1e-9) for c in m["comps"]) for m in cand)
     out.check(ok, prefix + "/representative-not-shaped-like-an-eligible-member",
               lambda: "representative of type %r (components %s) matches no eligible member %s" % (rep.getType(), names, [m["name"] for m in cand]))
 
@@ -736,8 +743,8 @@ def _cyl_consistent(cand):
     subset of the key nuclides in matching components."""
     if len({m["family"] for m in cand}) > 1:
         return False
-    for k in range(len(cand[0]["comps"])):
-        if len({frozenset(set(m["comps"][k]["nd"]) & CYL_KEY_NUCS) for m in cand}) > 1:
+    for cname in [c["name"] for c in cand[0]["comps"]]:  # matched by name: the child order of a block is arbitrary
+        if len({frozenset(set([x for x in m["comps"] if x["name"] == cname][0]["nd"]) & CYL_KEY_NUCS) for m in cand}) > 1:
             return False
     return True
 
@@ -911,6 +918,8 @@ def collections_execute(case):
     performBy = byComp and len(families) == 1
     if byComp:
         out.label("byComponent:" + ("performed" if performBy else "fallback-dissimilar"))
+        if performBy and [id(c) for c in candBlocks[0]] != [id(c) for c in sorted(candBlocks[0])]:
+            out.label("byComponent:first-candidate-children-unsorted")
     check_template(out, cand, rep, "avg")
     check_average(out, ex, rep, coll, kind, performBy)
     check_burnup(out, ex_all, mask, rep)
@@ -995,7 +1004,8 @@ def grouping_strategy(tier):
     bounds = st.lists(st.integers(1, 100), max_size=7, unique=True).map(sorted)
     tbounds = st.lists(st.sampled_from([200, 300, 350, 400, 450, 500, 600, 700]), min_size=1, max_size=5, unique=True).map(sorted)
     ctrl = st.fixed_dictionaries({
-        "type": st.sampled_from(["A", "B", "a"]),
+        "type": st.sampled_from(["A", "A", "B", "a"]),
+        "env": st.sampled_from(["A", "A", "B", "C", "D"]),
         "rep": st.sampled_from(["Median", "Average", "FluxWeightedAverage"]),
         "filter": st.integers(0, len(FILTERS) - 1),
         "byComponent": st.booleans(),
@@ -1007,7 +1017,7 @@ def grouping_strategy(tier):
         "tempGroups": st.one_of(st.just([]), st.just([]), tbounds, st.just([200, 300, 400, 500, 600])),
         "rep": st.sampled_from(["Median", "Average", "Average", "FluxWeightedAverage"]),
         "allTypes": st.booleans(),
-        "control": st.lists(ctrl, max_size=2, unique_by=lambda c: c["type"]),
+        "control": st.lists(ctrl, max_size=4, unique_by=lambda c: (c["type"], c["env"])),
         "fluxMode": st.sampled_from(["positive", "positive", "zero"]),
         "lfp": st.sampled_from([0, 0, 1]),
         "onBoundary": st.booleans(),
@@ -1051,12 +1061,17 @@ def grouping_execute(case):
         s["bpXs"] = s["xs2"] if single and s["design"] == 2 else s["xs"]
     default = {"rep": case["rep"], "filterList": None if case["allTypes"] else ["fuel"], "byComponent": False, "tempIsotope": "U238"}
     control = {}
+    # the isotope that places a block in a temperature group is looked up with the block's CURRENT suffix, so it is kept
+    # one per xs type (that of the type's 'A' entry, else the default): otherwise regrouping a refreshed core could move
+    # blocks again and "the" group of a block would not be defined
+    iso = {c["type"]: c["tempIsotope"] for c in case["control"] if c.get("env", "A") == "A"}
     for c in case["control"]:
         c = dict(c)
         f = FILTERS[c["filter"] % len(FILTERS)]
         # an entry without validBlockTypes inherits the global default (XSModelingOptions.setDefaults)
         c["filterList"] = default["filterList"] if f is None else f
-        control[c["type"] + "A"] = c
+        c["tempIsotope"] = iso.get(c["type"], "U238")
+        control[c["type"] + c.get("env", "A")] = c
     xsctl = {}
     for k, c in control.items():
         d = {"geometry": "0D", "blockRepresentation": c["rep"], "averageByComponent": c["byComponent"], "xsTempIsotope": c["tempIsotope"]}
@@ -1205,6 +1220,8 @@ def grouping_execute(case):
     out.check(list(reps) == sorted(reps), "group/representatives-not-sorted", lambda: "%s" % list(reps))
     for key, mem in members.items():
         st_, ms, mask, cand = plan[key]
+        if key not in control and st_ is not default:
+            out.label("settings:inherited-from-lowest-of-%d-entries" % min(2, len([k for k in control if k[0] == key[0] and k[1] < key[1]])))
         if not cand:
             out.check(key not in reps, "group/representative-without-eligible-members", "group %r" % key)
             out.label("group:no-eligible-members")
